@@ -290,26 +290,34 @@ def concrete_playback(crate, unit, hname, env, timeout=900):
     except subprocess.TimeoutExpired:
         cex['native_output'] = 'timeout generating concrete values'
         return cex
-    m = re.search(r'- (kani_concrete_playback_\w+)', p.stdout + p.stderr)
-    if not m:
+    tests = sorted(set(re.findall(r'- (kani_concrete_playback_\w+)', p.stdout + p.stderr)))
+    if not tests:
         cex['native_output'] = 'Kani produced no concrete playback test'
         return cex
-    test = m.group(1)
-    # read back the values
+    # Kani emits one unit test per failing check AND per satisfied cover; read back all value vectors
+    vals = {}
     for root, _, files in os.walk(os.path.join(crate, 'src')):
         for fn in files:
             pth = os.path.join(root, fn)
             s = open(pth).read()
-            k = s.find('fn ' + test)
-            if k >= 0:
-                blk = s[k:s.find('concrete_playback_run', k)]
-                cex['values'] = [ln.strip() for ln in blk.split('\n') if ln.strip().startswith('//') or ln.strip().startswith('vec![')]
-    cmd2 = ['cargo', 'kani', 'playback', '-Z', 'concrete-playback'] + [x for x in unit.flags] + ['--', test]
+            for test in tests:
+                k = s.find('fn ' + test)
+                if k >= 0:
+                    blk = s[k:s.find('concrete_playback_run', k)]
+                    vals[test] = [ln.strip() for ln in blk.split('\n') if ln.strip().startswith('//') or ln.strip().startswith('vec![')]
+    cmd2 = ['cargo', 'kani', 'playback', '-Z', 'concrete-playback'] + [x for x in unit.flags] + ['--', 'kani_concrete_playback_' + hname]
     try:
         p2 = subprocess.run(cmd2, cwd=crate, capture_output=True, text=True, timeout=timeout, env=env)
         txt = p2.stdout + p2.stderr
-        cex['native'] = 'panicked' if re.search(r'test result: FAILED|panicked at', txt) else ('passed' if 'test result: ok' in txt else 'unknown')
-        keep = [ln for ln in txt.split('\n') if re.search(r'panicked at|assertion|overflow|test result|^thread ', ln)]
+        failed = sorted(set(re.findall(r'(kani_concrete_playback_\w+) \.\.\. FAILED', txt)))
+        if failed:
+            cex['native'] = 'panicked'
+            cex['values'] = vals.get(failed[0])
+            cex['failing_tests'] = failed
+        else:
+            cex['native'] = 'passed' if 'test result: ok' in txt else 'unknown'
+            cex['values'] = vals.get(tests[0])
+        keep = [ln for ln in txt.split('\n') if re.search(r'panicked at|assertion|overflow|test result: FAILED|^thread ', ln)]
         cex['native_output'] = '\n'.join(keep[:20])
     except subprocess.TimeoutExpired:
         cex['native_output'] = 'timeout in native playback'
